@@ -47,3 +47,10 @@ def run(R):
         i += 1
         r = E.random_regexp(rnd, rnd.randint(5, 9), 'ab')
         cases(r, 'r%d' % i, rnd.sample(W6, 12))
+        # sums of look-alike operands (same shape and leaves, one + / . switched; identical operands) and expressions built from a pool of small pieces
+        import gambatools.regexp as rx_
+        base = E.random_regexp(rnd, rnd.randint(2, 5), 'ab'); tw = E.regexp_twin(rnd, base)
+        if tw is not None:
+            cases(rx_.Sum(base, tw), 'twin%d' % i, rnd.sample(W6, 8)); cases(rx_.Concat(rx_.Sum(tw, base), base), 'twinc%d' % i, rnd.sample(W6, 6))
+        cases(rx_.Sum(base, base), 'same%d' % i, rnd.sample(W6, 6))
+        cases(E.regexp_pool_combo(rnd), 'pool%d' % i, rnd.sample(W6, 8))
